@@ -157,8 +157,31 @@ func simplex(t *rapid.T, n int, floor float64, label string) []float64 {
 	return x
 }
 
+// tinyOne replaces component k of p by a frequency drawn log-uniformly in [1e-8, 1e-3] (the open
+// simplex of the quantifier has no floor; the unchanged code agrees with exp(Qt) to 3e-12 at 1e-8)
+func tinyOne(t *rapid.T, p []float64, k int) {
+	tiny := logUniform(t, 1e-8, 1e-3, "pitiny")
+	rest := 0.0
+	for i, v := range p {
+		if i != k {
+			rest += v
+		}
+	}
+	for i := range p {
+		if i == k {
+			p[i] = tiny
+		} else {
+			p[i] *= (1 - tiny) / rest
+		}
+	}
+}
+
 func drawPi4(t *rapid.T) (pi []float64, regime string) {
-	switch rapid.IntRange(0, 7).Draw(t, "pikind") {
+	switch rapid.IntRange(0, 9).Draw(t, "pikind") {
+	case 8, 9: // one base almost absent
+		p := simplex(t, 4, 0.01, "pi")
+		tinyOne(t, p, rapid.IntRange(0, 3).Draw(t, "pitinyk"))
+		return p, "pi=one-below-1e-3"
 	case 0, 1:
 		return []float64{0.25, 0.25, 0.25, 0.25}, "pi=equal"
 	case 2: // purines equal, pyrimidines equal
@@ -299,6 +322,10 @@ func fillProt(t *rapid.T, c *mCase) {
 	default:
 		c.Pi = simplex(t, 20, 0.002, "pi")
 		c.Regime = "user-generic"
+		if rapid.IntRange(0, 2).Draw(t, "tiny") == 0 {
+			tinyOne(t, c.Pi, rapid.IntRange(0, 19).Draw(t, "pitinyk"))
+			c.Regime = "user-one-below-1e-3"
+		}
 	}
 	c.Ts = drawTs(t)
 	c.Split = rapid.SampledFrom([]float64{0.5, 0.25, 0.001, 0.999, 0.37}).Draw(t, "split")
@@ -929,6 +956,12 @@ func checkReinit(c reinitCase) (o pbt.Outcome, err error) {
 	if e1 != nil || e2 != nil {
 		return o, fmt.Errorf("%s: NewPij fails: %v %v", name, e1, e2)
 	}
+	// they are read before the re-initialisation (an accessor may keep what it returned)
+	for _, old := range []*models.Pij{early, old1, old2} {
+		if old != nil {
+			read(old, n)
+		}
+	}
 	// round 2: B on the same object
 	if e = initModel(m, c.B); e != nil {
 		return o, fmt.Errorf("%s: InitModel(B) on a model already initialised and used fails: %v", name, e)
@@ -936,11 +969,15 @@ func checkReinit(c reinitCase) (o pbt.Outcome, err error) {
 	if _, err = checkOn(m, c.B, &o); err != nil {
 		return o, fmt.Errorf("round 2 (model object already initialised with %s and used, then InitModel with the second parameters): %v", paramString(c.A), err)
 	}
-	// the objects created before, moved to another length
 	qsB, _, err := textbookQ(c.B)
 	if err != nil {
 		return o, err
 	}
+	// the objects created before, at their UNCHANGED length after SetLength(that length)
+	if err = sameLength(m, c.B, qsB, []*models.Pij{early, old1, old2}, []float64{1.0, tOld, c.A.Ts[0]}, &o); err != nil {
+		return o, err
+	}
+	// the objects created before, moved to another length
 	for k, old := range []*models.Pij{early, old1, old2} {
 		if old == nil {
 			continue
@@ -989,6 +1026,67 @@ func checkReinit(c reinitCase) (o pbt.Outcome, err error) {
 		o.Class("re-initialised: everything changes")
 	}
 	return o, nil
+}
+
+// sameLength: Pij objects created (and read) before the model was re-initialised with the parameters of
+// cb, asked again for their UNCHANGED length. Contract judged, for every model: after SetLength(t) (any
+// t, the same one included) a Pij gives exp(Q t) of the model's CURRENT parameters. Reads of an old Pij
+// after a re-initialisation without any SetLength are unspecified and not judged. Before the repair
+// 39ddaed SetLength skipped the computation when the length was unchanged and the eigen-based models
+// kept the previous parameters' matrix (props/c18/FINDINGS.md).
+func sameLength(m models.Model, cb mCase, qsB []matrix, olds []*models.Pij, lens []float64, o *pbt.Outcome) error {
+	n := m.NState()
+	for k, old := range olds {
+		if old == nil {
+			continue
+		}
+		t := lens[k]
+		if e := old.SetLength(t); e != nil {
+			return fmt.Errorf("%s: SetLength fails: %v", cb.Model, e)
+		}
+		best := math.Inf(1)
+		var at [2]int
+		for _, q := range qsB {
+			if d, a := maxDiff(read(old, n), expm(q, t)); d < best {
+				best, at = d, a
+			}
+		}
+		if best > tol {
+			return fmt.Errorf("%s: a Pij object created and read before the model was re-initialised (object %d), after SetLength to its unchanged length t=%g: P[%d][%d] = %.12g differs from exp(Qt) of the second parameters (%s) by %.3g", cb.Model, k, t, at[0], at[1], old.Pij(at[0], at[1]), paramString(cb), best)
+		}
+		o.Class("old Pij at its unchanged length after SetLength: judged")
+	}
+	return nil
+}
+
+// TestKnownPijSameLength: regression of the repaired finding 39ddaed (F81: NewPij(m,0.5), InitModel with
+// other frequencies, SetLength(0.5) still gave the first frequencies' matrix). Must pass silently.
+func TestKnownPijSameLength(t *testing.T) {
+	a := mCase{Model: "f81", Pi: []float64{0.25, 0.25, 0.25, 0.25}, Ts: []float64{0.5}, Split: 0.5}
+	b := mCase{Model: "f81", Pi: []float64{0.1, 0.2, 0.3, 0.4}, Ts: []float64{0.5}, Split: 0.5}
+	m, e := buildModel(a)
+	if e != nil {
+		pbt.Fail(t, a, "f81: InitModel fails: %v", e)
+		return
+	}
+	p, e := models.NewPij(m, 0.5)
+	if e != nil {
+		pbt.Fail(t, a, "f81: NewPij fails: %v", e)
+		return
+	}
+	read(p, 4)
+	initModel(m, b)
+	p.SetLength(0.5)
+	qs, _, _ := textbookQ(b)
+	want := expm(qs[0], 0.5)
+	if d, at := maxDiff(read(p, 4), want); d > tol {
+		pbt.Fail(t, b, "F81: NewPij(m,0.5), InitModel with other frequencies, SetLength(0.5): P[%d][%d] = %.6f is still the value of the first frequencies, exp(Qt) of the new ones gives %.6f", at[0], at[1], p.Pij(at[0], at[1]), want[at[0]][at[1]])
+		return
+	}
+	var o pbt.Outcome
+	o.NonTrivial = true
+	pbt.Note(t, b, o)
+	pbt.Complete(t)
 }
 
 func paramString(c mCase) string {
@@ -1070,6 +1168,7 @@ func checkReinitProtein(c reinitCase) (o pbt.Outcome, err error) {
 	if e != nil {
 		return o, fmt.Errorf("%s: NewPij fails: %v", name, e)
 	}
+	read(old, 20)
 	if err = rejectedInit(m, c.A, c.Bad, &o); err != nil {
 		return o, fmt.Errorf("after round 1: %v", err)
 	}
@@ -1079,11 +1178,14 @@ func checkReinitProtein(c reinitCase) (o pbt.Outcome, err error) {
 	if _, err = checkOn(m, c.B, &o); err != nil {
 		return o, fmt.Errorf("round 2 (model object already initialised and used, then InitModel with the second frequencies): %v", err)
 	}
-	// the Pij object created before, moved to another length
 	qsB, _, err := textbookQ(c.B)
 	if err != nil {
 		return o, err
 	}
+	if err = sameLength(m, c.B, qsB, []*models.Pij{old}, []float64{tOld}, &o); err != nil {
+		return o, err
+	}
+	// the Pij object created before, moved to another length
 	for _, t := range c.B.Ts {
 		if t == tOld {
 			continue
@@ -1160,6 +1262,8 @@ func TestCorners(t *testing.T) {
 		{0.01, 0.49, 0.01, 0.49},
 		{0.49, 0.01, 0.49, 0.01},
 		{0.1, 0.2, 0.3, 0.4},
+		{0.4, 0.3, 0.299999, 1e-6},
+		{1e-8, 0.3, 0.3, 0.4 - 1e-8},
 	}
 	ts := []float64{tMin, 1e-3, 0.1, 1, 10, tMax}
 	pbt.Enumerate(t, "every model at the corners of its parameter domain (kappa, rates in {min,1,max}; six frequency vectors incl. the floor 0.01; t in {1e-8,1e-3,0.1,1,10,100})",
